@@ -574,12 +574,13 @@ class HTTPConnectionPool(ConnectionPool, RequestMethods):
         Check if the given ``url`` is a member of the same host as this
         connection pool.
         """
-        if url.startswith("/"):
+        # A network-path reference ("//host/path") names a host of its own.
+        if url.startswith("/") and not url.startswith("//"):
             return True
 
         # TODO: Add optional support for socket.gethostbyname checking.
         scheme, _, host, port, *_ = parse_url(url)
-        scheme = scheme or "http"
+        scheme = scheme or (self.scheme if url.startswith("//") else "http")
         if host is not None:
             host = _normalize_host(host, scheme=scheme)
 
